@@ -203,3 +203,10 @@ package updates
 //@ at call mapper.(*Info).SetField requires calls("mapper.(*Info).SetField") + 1 == calls("ovsdb.OvsToNative")
 //@ loop 1 invariant calls("mapper.(*Info).SetField") == calls("ovsdb.OvsToNative")
 //@ ensures_ok calls("mapper.(*Info).SetField") == calls("ovsdb.OvsToNative")
+
+// processWeakReferences (C04): the removals accumulated for a referencing row
+// and column extend what was accumulated so far for THAT row and column (one
+// more uuid each time) - they are never started from another row's entry.
+//@ func (*referenceTracker).processWeakReferences
+//@ at update updatedRows[*] requires istype(arg1, "ovsdb.OvsSet") ==> len(unbox(arg1, "ovsdb.OvsSet").GoSet) == ite(arg0 in updatedRows[uuid], len(unbox(updatedRows[uuid][arg0], "ovsdb.OvsSet").GoSet), 0) + 1
+
